@@ -3,6 +3,12 @@
 import json, sys
 
 CHECKS = {
+ "C07": dict(cat="exploration", tech="proptest-generated builder call sequences and payloads written through libcnb's own writers, decoded by an independent TOML 1.0 reader (Python tomllib) and compared with an independently computed model of the spec document; round trip through libcnb's readers",
+   text="Programs over LaunchBuilder/ProcessBuilder/BuildPlanBuilder, LayerContentMetadata, Store, ExecDProgramOutput (real fd 3 in a helper process) and PackageDescriptor with escaping-hostile strings and nested metadata of every TOML kind are written by libcnb; tomllib must parse the text and a reader knowing only the spec's field names/defaults must recover the model; keys the spec does not define are flagged.",
+   note="Trusted: Python tomllib; the harness's model of builder semantics (groups split at each `or`, last default/working_directory wins). Datetimes limited to reader-independent spellings."),
+ "C08": dict(cat="exploration", tech="schema-directed generation of valid documents (harness's own schema of the spec, own emitter) plus exhaustive single-point mutation of each document (unknown key per table, delete each required key, retype each value, add order/targets/stacks) against accept/reject expectations; value comparison with spec defaults",
+   text="For eight document types, generated valid documents must parse to exactly their values (defaults filled in from the spec) and every single-point mutation of each document must be rejected, with the component/composite classification rules and a negative control (unknown keys inside free-form metadata stay accepted).",
+   note="The schema is the harness's transcription of the CNB spec; store.toml without [metadata] and order with an empty targets/stacks list are not judged."),
  "C13": dict(cat="exploration", tech="bounded-exhaustive enumeration of all labelled DAGs x all ordered root selections, plus proptest-generated larger DAGs, against a validity predicate (closure set, uniqueness, dependencies first); graphs materialised as buildpack directories and read through the public API",
    text="Every labelled DAG on up to 4 (quick) / 5 (thorough) nodes is written out as a directory of composite and libcnb.rs buildpacks (with decoys), read back through build_libcnb_buildpacks_dependency_graph and ordered by get_dependencies for every ordered root selection; the output is judged by a validity predicate because many orders are correct. Random DAGs up to 12 nodes, duplicate entries and dangling dependencies are sampled.",
    note="Only acyclic inputs (the property's domain); the validity predicate and the directory materialisation are the harness's own."),
